@@ -9,7 +9,7 @@ os.makedirs(dst)
 shutil.copy(os.path.join(d, "patch.diff"), dst)
 shutil.copytree(os.path.join(d, "demo"), os.path.join(dst, "demo"), ignore=shutil.ignore_patterns("*.o", "demo", "demo_bin", "*.out", "a.out"))
 m = json.load(open(os.path.join(d, "meta.json")))
-log = "/tmp/seed/confirm-%s-%s.log" % (os.path.basename(src), n)
+log = os.path.join(os.path.dirname(src), "confirm-%s-%s.log" % (os.path.basename(src), n))
 m["confirmed_by_main_session"] = open(log).read().split("\n") if os.path.exists(log) else []
 m["checks_result"] = caught
 json.dump(m, open(os.path.join(dst, "meta.json"), "w"), indent=1)
